@@ -145,9 +145,8 @@ func perturbACRH(names []string, mode int) []string {
 		return []string{strings.Join(parts, ",")}
 	case 3: // one element per field line
 		return append([]string{}, names...)
-	case 4: // empty elements sprinkled in (fewer than 16 in total)
-		s := "," + strings.Join(names, ",,") + ","
-		return []string{s}
+	case 4: // empty elements sprinkled in (never more than 14 in total, whatever the number of names)
+		return []string{"," + joinWithEmpties(names, ",", ",,", 12) + ","}
 	case 5: // two lines, padded, with empties
 		k := (len(names) + 1) / 2
 		a := strings.Join(names[:k], " , ")
@@ -157,11 +156,29 @@ func perturbACRH(names []string, mode int) []string {
 		}
 		return []string{a + ",", "," + b}
 	case 6: // empty elements that carry one OWS byte on each side
-		return []string{strings.Join(names, " ,  , ")}
+		return []string{joinWithEmpties(names, " , ", " ,  , ", 12)}
 	case 7: // the same with tabs, plus a whitespace-only element at either end
-		return []string{"\t," + strings.Join(names, "\t,\t\t,\t") + ", "}
+		return []string{"\t," + joinWithEmpties(names, "\t,\t", "\t,\t\t,\t", 12) + ", "}
 	}
 	return []string{strings.Join(names, ",")}
+}
+
+// joinWithEmpties joins names with sepEmpty (a separator that contains one
+// empty element) for the first maxEmpties gaps and with sep afterwards, so
+// that the documented budget of 16 empty elements is never exceeded.
+func joinWithEmpties(names []string, sep, sepEmpty string, maxEmpties int) string {
+	var b strings.Builder
+	for i, n := range names {
+		if i > 0 {
+			if i <= maxEmpties {
+				b.WriteString(sepEmpty)
+			} else {
+				b.WriteString(sep)
+			}
+		}
+		b.WriteString(n)
+	}
+	return b.String()
 }
 
 // BrowserTrace records what the browser did, for diagnostics.
